@@ -174,6 +174,7 @@ func (f *Frame) checkInvariants(li *loopInfo, kind string, phiVal func(*ssa.Phi)
 	}
 	env := f.specEnv(st, phiVal, phis)
 	f.bindNamesBefore(env, li.header)
+	f.bindSeen(env, li)
 	for ci, c := range vc.contract.LoopInv[li.ordinal] {
 		for ji, cj := range conjuncts(c.Expr) {
 			g := env.evalBool(cj)
@@ -189,6 +190,7 @@ func (f *Frame) assumeInvariants(li *loopInfo, phis []*ssa.Phi, st *State) {
 	}
 	env := f.specEnv(st, func(p *ssa.Phi) Val { return f.vals[p] }, phis)
 	f.bindNamesBefore(env, li.header)
+	f.bindSeen(env, li)
 	for _, c := range vc.contract.LoopInv[li.ordinal] {
 		f.assume(env.evalBool(c.Expr))
 	}
